@@ -1,6 +1,9 @@
 import LdarModel.Model.Summary
 import Mathlib.Data.List.Perm.Basic
 import Mathlib.Data.List.Nodup
+import Mathlib.Tactic.Ring
+import Mathlib.Tactic.FieldSimp
+import Mathlib.Algebra.Order.Field.Rat
 /-
 Helper lemmas for the summary aggregation model: file-name parsing of generated names, pattern
 selection, permutation invariance of keyed tables, the closed form of one batch.
@@ -864,5 +867,67 @@ theorem allSims_batchSimulations (n : Nat) : allSims 0 (batchSimulations n) = Li
       conv => rhs; rw [hn, this]
       simp
   · simp [allSims, batchSims]
+
+/-! ### yearly share of a closed record -/
+
+theorem eoy_succ (y : Nat) : (⟨y, 12, 31⟩ : Date).ord + 1 = (⟨y + 1, 1, 1⟩ : Date).ord := by
+  simp only [Date.ord]
+  norm_num
+  omega
+
+/-- Σ_{i<j} f i -/
+def sumTo (f : Nat → Rat) : Nat → Rat
+  | 0 => 0
+  | j + 1 => sumTo f j + f j
+
+theorem sumR_single (x : Rat) : sumR [x] = x := by simp [sumR]
+
+/-- share of one closed record in one year -/
+theorem share_closed (v : Int) (st en : Date) (y : Nat) :
+    yearlyShare [(v, some st, some en)] y =
+      if st.y ≤ y ∧ y ≤ en.y then
+        (v : Rat) * (if st.y = y ∧ en.y = y then (1 : Rat) / 1
+          else if st.y = y then (((⟨y, 12, 31⟩ : Date).ord - st.ord + 1 : Int) : Rat) / ((en.ord - st.ord + 1 : Int) : Rat)
+          else if en.y = y then ((en.ord - (⟨y, 1, 1⟩ : Date).ord + 1 : Int) : Rat) / ((en.ord - st.ord + 1 : Int) : Rat)
+          else (((⟨y, 12, 31⟩ : Date).ord - (⟨y, 1, 1⟩ : Date).ord + 1 : Int) : Rat) / ((en.ord - st.ord + 1 : Int) : Rat))
+      else 0 := by
+  unfold yearlyShare
+  by_cases h : st.y ≤ y ∧ y ≤ en.y
+  · simp only [List.filterMap_cons, List.filterMap_nil, List.map_cons, List.map_nil, h, and_self, if_true,
+      decide_true, Bool.and_self]
+    split_ifs <;> simp_all [sumR]
+  · simp only [List.filterMap_cons, List.filterMap_nil, List.map_cons, List.map_nil, h, if_false]
+    rcases not_and_or.mp h with h1 | h1 <;> simp [h1, sumR]
+
+
+theorem shares_partial (v : Int) (st en : Date) (hlt : st.y < en.y) (hT : en.ord - st.ord + 1 ≠ 0) (j : Nat)
+    (hj : j < en.y - st.y) :
+    sumTo (fun i => yearlyShare [(v, some st, some en)] (st.y + i)) (j + 1)
+      = (v : Rat) * ((((⟨st.y + j + 1, 1, 1⟩ : Date).ord - st.ord : Int) : Rat) / ((en.ord - st.ord + 1 : Int) : Rat)) := by
+  have hT' : ((en.ord - st.ord + 1 : Int) : Rat) ≠ 0 := by exact_mod_cast hT
+  induction j with
+  | zero =>
+    simp only [sumTo, Nat.add_zero, zero_add]
+    have h1 : st.y ≤ st.y ∧ st.y ≤ en.y := ⟨le_refl _, by omega⟩
+    have h2 : ¬ (st.y = st.y ∧ en.y = st.y) := by omega
+    rw [share_closed, if_pos h1, if_neg h2, if_pos rfl, ← eoy_succ]
+    congr 2
+    push_cast; ring
+  | succ j ih =>
+    rw [sumTo, ih (by omega), share_closed]
+    have h1 : st.y ≤ st.y + (j + 1) ∧ st.y + (j + 1) ≤ en.y := by omega
+    have h2 : ¬ (st.y = st.y + (j + 1) ∧ en.y = st.y + (j + 1)) := by omega
+    have h3 : ¬ st.y = st.y + (j + 1) := by omega
+    have h4 : ¬ en.y = st.y + (j + 1) := by omega
+    rw [if_pos h1, if_neg h2, if_neg h3, if_neg h4]
+    have e := eoy_succ (st.y + (j + 1))
+    have : (⟨st.y + (j + 1) + 1, 1, 1⟩ : Date) = ⟨st.y + (j + 1 + 1), 1, 1⟩ := by congr 1
+    rw [this] at e
+    have e' : (⟨st.y + (j + 1), 12, 31⟩ : Date).ord = (⟨st.y + (j + 1 + 1), 1, 1⟩ : Date).ord - 1 := by omega
+    have : (⟨st.y + j + 1, 1, 1⟩ : Date) = ⟨st.y + (j + 1), 1, 1⟩ := by congr 1
+    rw [e', this]
+    field_simp
+    push_cast
+    ring_nf
 
 end LdarModel.Summary
